@@ -553,6 +553,9 @@ def run(ctx):
         rule_pending(ctx, F)
         rule_lookahead_end(ctx, F)
         rule_fragile_state(ctx, F)
+        # the edit marks (has_changes) every node the reuse test must refuse — incl. column-dependent ones whose column shifted (shared with C10.P2/P3)
+        import C10
+        C10.rule_subtree_edit(ctx, F)
     import rsrules
     rsrules.c01_rust(ctx)
     return ctx.finish(
